@@ -9,7 +9,8 @@
      - assignment to an existing repetition replaces it in place (C09_refines_replace) and never
        changes the order of the other children (C09_order_stable),
      - deletion removes exactly the addressed child (C09_refines_remove),
-     - no other element's children change (the `edit` frame),
+     - no other element's children change (the `edit` frame), lifted to whole histories of such
+       calls by fold_left (C09_refines),
      - the encoding is a function of the visible part, hence of the abstraction (C09_encoding).
    Partial: the lifting to whole operations with lazily created targets is left to the
    correspondence run; F19 (a value assigned to VARIES_n of a bare varies field is not encoded) is
@@ -61,6 +62,14 @@ Proof.
   - intros q Hq. eapply abs_edit_other; eauto.
 Qed.
 Print Assumptions C09_refines_remove.
+
+(* all histories of additions, deletions and in-place replacements (unbounded), by induction over the
+   list of calls: the children of EVERY element at the end are what the plain list model computes *)
+Theorem C09_refines : forall (t : tables) (s s' : store) (ops : list mop),
+  good_run t s ops s' ->
+  forall q, abs s' q = fold_left (spec_mstep (fun c => n_name (getn s c))) ops (abs s) q.
+Proof. intros t s s' ops H. exact (refines_fold t s ops s' H). Qed.
+Print Assumptions C09_refines.
 
 (* replacing one child never changes the order of the others, and the replacement sits where the
    replaced child sat *)
